@@ -124,6 +124,44 @@ def k_spatial(ctx):
         _check_spatial(ctx, "call 2 (%s)" % second, c, tree, rnd, 0, a2[0], a2[1], b2[0], b2[1], p2, d2)
 
 
+# ---- K1b: a history of three calls (build, cache hit or miss, then a size jump or a change) ------
+A3S = (np.array([12.0, 22.0]), np.array([2.0, 7.0]))        # 2 x 1: a size jump for every magnitude_factor < 2
+THIRD = dict(SECOND)
+THIRD.update({
+    "jump-primary-larger": lambda a, b: (A3S, B1),
+    "jump-secondary-larger": lambda a, b: (B1, A3S),
+})
+
+
+def _k1b_cases(tier):
+    seconds = ["same", "primary-changed-only"]
+    thirds = ["jump-primary-larger", "jump-secondary-larger"]
+    if tier == "thorough":
+        seconds += ["secondary-changed-only", "same-objects-copied", "swapped-sides", "sizes-changed"]
+        thirds += ["same", "different-values", "swapped-sides", "sizes-changed", "primary-changed-only", "secondary-changed-only"]
+    return [(("A1", "B2"), s, t) for s in seconds for t in thirds]
+
+
+@harness("C04.spatial-history3", cases=_k1b_cases,
+         expect=lambda c: ["index-was-built-from-this-call's-points", "pairs-exact"])
+def k_spatial3(ctx):
+    (fa, fb), second, third = ctx.case
+    a, b = globals()[fa], globals()[fb]
+    a2, b2 = SECOND[second](a, b)
+    a3, b3 = THIRD[third](a, b)
+    mf = ctx.real("magnitude_factor", lo=1, hi=12)
+    tree = SpecTree(ctx)
+    rnd = SymRandom(ctx)
+    c = CL.Collocator()
+    c.magnitude_factor = mf
+    c.leaf_size = 40
+    with _env(ctx, tree, rnd):
+        for tag, (x, y) in (("call 1", (a, b)), ("call 2 (%s)" % second, (a2, b2)),
+                            ("call 3 (%s)" % third, (a3, b3))):
+            p, d = c.spatial_search(x[0], x[1], y[0], y[1], 5)
+            _check_spatial(ctx, tag, c, tree, rnd, 0, x[0], x[1], y[0], y[1], p, d)
+
+
 # ---- K2: temporal check on integer-nanosecond times ---------------------------------------------------
 @harness("C04.temporal", cases=lambda tier: [1, 2] + ([3] if tier == "thorough" else []),
          expect=lambda c: ["kept-iff-dt<max_interval", "stored-interval-is-|dt|-in-seconds"])
@@ -308,14 +346,15 @@ def k_transpose(ctx):
 
 
 PLAN = {
-    "quick": {"harnesses": ["C04.spatial-history", "C04.temporal", "C04.collocate", "C04.transpose"],
+    "quick": {"harnesses": ["C04.spatial-history", "C04.spatial-history3", "C04.temporal", "C04.collocate", "C04.transpose"],
               "opts": {"query_timeout_ms": 10000, "chunk_paths": 40}},
-    "thorough": {"harnesses": ["C04.spatial-history", "C04.temporal", "C04.collocate", "C04.transpose"],
+    "thorough": {"harnesses": ["C04.spatial-history", "C04.spatial-history3", "C04.temporal", "C04.collocate", "C04.transpose"],
                  "opts": {"query_timeout_ms": 20000, "chunk_paths": 40}},
 }
 BOUNDS = {"quick": {"spatial search": "2 x 1 and 2 x 2 points, a history of two calls on one Collocator (second call: same arrays, copies, "
                     "swapped sides, nearly equal (1e-7 relative), changed values on one or both sides, changed sizes), every membership "
-                    "matrix / report order / shuffle permutation of the tree, every magnitude_factor in [1, 12]",
+                    "matrix / report order / shuffle permutation of the tree, every magnitude_factor in [1, 12]; a history of three calls (2 x 2 built, "
+                    "2 x 2 with a cache hit, then 2 x 1 / 1 x 2 new points: a size jump for magnitude_factor < 2) in 4 combinations",
                     "temporal check": "k <= 2 pairs, all integer-nanosecond times in [0, 1e13] and every max_interval (ns)",
                     "collocate": "datasets of 1-2 points (unsorted times, sub-second offsets), every NaN pattern of the latitudes, every "
                                  "membership matrix / order / permutation; thresholds as unit strings and as numbers; three explicit closed [start, end] windows"},
